@@ -13,7 +13,6 @@ import (
 )
 
 func flushMemstoreContinuously(db *DB) {
-	defer func() { db.doneFlushChannel <- true }()
 	err := func(db *DB) error {
 		for flushAction := range db.storeFlushChannel {
 			err := executeFlush(db, flushAction)
@@ -27,6 +26,10 @@ func flushMemstoreContinuously(db *DB) {
 	if err != nil {
 		log.Panicf("error while merging sstable at %s, error was %v", db.currentSSTablePath, err)
 	}
+
+	// only signalled on a regular shutdown: as a deferred function this send would also run while the panic above unwinds
+	// and block forever on the unbuffered channel, the panic would never stop the process and the next rotation would hang
+	db.doneFlushChannel <- true
 }
 
 func executeFlush(db *DB, flushAction memStoreFlushAction) error {
